@@ -45,7 +45,8 @@ def nonzero_value(kind):
                       st.sampled_from([3.0, 7.0, 10.0, 1000.0, -3.0])).map(
                 lambda t: t[0] / t[1]),
             st.sampled_from([16777217.0, 0.1, 1 / 3, 123456789.125,
-                             -0.30000000000000004, 2.0 ** 53 - 1, 1e-7]))
+                             -0.30000000000000004, 2.0 ** 53 - 1, 1e-7,
+                             2.5e-9, -3e-12, 1e-300]))
     if kind == "wild":
         return st.one_of(
             st.floats(allow_nan=False, allow_infinity=False).filter(
@@ -361,7 +362,7 @@ def big_specs(draw, md="simple", values="count"):
     """A table with one long axis (past 256 entries: block-wise and
     'large axis' code paths), built procedurally from a few drawn numbers so
     that the case stays small to generate.  Same keys as table_specs()."""
-    long_ = draw(st.sampled_from([257, 300, 513]))
+    long_ = draw(st.sampled_from([257, 300, 513, 257, 300, 513, 1030, 2049]))
     short = draw(st.integers(1, 3))
     axis = draw(st.sampled_from(["observation", "observation", "sample"]))
     n, m = (long_, short) if axis == "observation" else (short, long_)
